@@ -40,6 +40,20 @@ theorem unescape_passes_children_on (fuel : Nat) (c : Ctx) (o : Tok) (i : Int) (
     execNode (fuel+1) c (.unescape o i kids) buf = execKids fuel { c with unesc := true } kids buf := by
   simp [execNode]
 
+/-- **A layout that only forwards is transparent** — rendering a template whose body is a single
+`= @children` with a nested block gives exactly what the block gives where it is written: same
+environment, same own children, same buffer (one level of inlining, for every block). -/
+theorem forwarding_layout_is_transparent (fuel : Nat) (c : Ctx) (o tk : Tok) (i : Int) (t : Tmpl)
+    (k : Node) (ks : List Node) (buf : Buf)
+    (ht : c.prog.find? (·.name == declName o.lit) = some t) (hb : t.kids = [.children tk]) :
+    execNode (fuel+3) c (.render o i (k :: ks)) buf =
+      execKids fuel { prog := c.prog, env := c.env, own := c.own } (k :: ks) buf := by
+  rw [render_with_block (fuel+2) c o i t k ks buf ht, hb]
+  simp only [execKids]
+  rw [children_runs_block_in_callers_scope fuel _ tk buf (k :: ks) c.env c.own rfl]
+  cases execKids fuel { prog := c.prog, env := c.env, own := c.own } (k :: ks) buf <;>
+    simp [bind, Except.bind]
+
 -- PLANNED: inlining theorem — exec (render X + block B) = exec (X's body with every @children replaced by B closed over the caller) for any nesting depth
 -- TIE: O-render on call graphs (layouts using @children 0/1/n times, forwarding, nested blocks)
 
